@@ -7,7 +7,8 @@
              * switch fall-through: a clause other than the last whose body can run off its end
                (syntactically: does not end in break/continue/return/throw) — includes the empty
                `case 1: case 2:` grouping and a non-final `default`;
-             * `static` at the top level of the script (the main context has no static store).
+             * `static` at the top level of the script (the main context has no static store);
+             * a closure whose body can run off its end (it yields its last statement's value).
    No proofs in this file. *)
 From Coq Require Import List String ZArith Bool Arith.
 From V.C02 Require Import Lang Spec.
@@ -71,10 +72,22 @@ with clean_clauses (m : bool) (l : clauses) {struct l} : bool :=
 with clean_catches (m : bool) (l : catches) {struct l} : bool :=
   match l with CTNil => true | CTCons _ _ b r => clean_stmt m b && clean_catches m r end.
 
+(* the block's last statement is a return or a throw: it cannot run off its end *)
+Fixpoint ends_return (s : stmt) : bool :=
+  match s with
+  | SSeq _ b => ends_return b
+  | SReturn _ | SThrow _ => true
+  | _ => false
+  end.
+
 Definition is_main (fn : string) : bool := String.eqb fn "".
 
 Definition wf_body (s : stmt) : bool := scoped 0 s && one_default s.
 Definition wf (p : prog) : bool :=
-  wf_body (main p) && forallb (fun d => wf_body (fbody d)) (funcs p).
+  wf_body (main p) && forallb (fun d => wf_body (fbody d)) (funcs p) && forallb (fun c => wf_body (cbody c)) (closures p).
+(* a closure body that can run off its end yields the value of its last statement in the
+   implementation (LambdaExpression.Call; arrow functions rely on it) — known finding
+   closure:falloff-value; statement values are not modelled, so such closures are outside [clean] *)
 Definition clean (p : prog) : bool :=
-  clean_stmt true (main p) && forallb (fun d => clean_stmt (is_main (fname d)) (fbody d)) (funcs p).
+  clean_stmt true (main p) && forallb (fun d => clean_stmt (is_main (fname d)) (fbody d)) (funcs p) &&
+  forallb (fun c => clean_stmt false (cbody c) && ends_return (cbody c)) (closures p).
